@@ -455,7 +455,7 @@ PARTS = [
     Part("str2array", e_s2a, s_s2a(), quick=1500, thorough=32000, shards=8, rule="non-trivial: 2-D, complex or explicit dtype"),
     Part("str2array_bad", e_s2a_bad, s_s2a_bad(), quick=600, thorough=12000, shards=4, rule="valid rendering + one character outside the grammar"),
     Part("str2array_fuzz", e_s2a_fuzz, s_fuzz, quick=1500, thorough=80000, shards=8, rule="arbitrary text over the grammar alphabet; validity predicate"),
-    Part("str2array_atheris", eval_text("str2array"), kind="custom", custom=lambda ctx, n: run_campaign(ctx, "str2array", n), quick=0, thorough=150000, shards=4,
+    Part("str2array_atheris", eval_text("str2array"), kind="custom", custom=lambda ctx, n: run_campaign(ctx, "str2array", n), quick=0, thorough=150000, shards=4, only_tier="thorough",
          rule="coverage-guided (atheris/libFuzzer) campaigns over bytes decoded onto the grammar alphabet, empty corpus and seeded corpus; oracle inside the target; thorough tier only"),
     Part("si", e_si, s_si(), quick=1500, thorough=32000, shards=4, rule="non-trivial: decade boundary/nextafter/int input or k!=1"),
 ]
